@@ -1,6 +1,7 @@
 """C02 — initialised jobs persist and reopen exactly; opening is lazy; id / prefix resolution."""
 import itertools
 import json
+import os
 
 from . import wsops
 from .common import Case, coq_bool, coq_list, scratch_dir, typed, untyped
@@ -66,15 +67,24 @@ def planted_ids(rng, anchor=None):
     return sorted(set(out))
 
 
+# names of the project directory and of its parent directory: valid directory names that contain glob / shell / regex /
+# URL metacharacters, spaces and non-ASCII characters (the model names the project A; it does not care)
+DIRNAMES = ["A", "runs[v2]", "a?b", "x*", "{a,b}", "~t", "sp ace", "#h%20", "$d'q\"(p)", "é中", "[a-z]", "a.b+c^", "-dash", "w\\x"]
+
+
+def provenance(rng):
+    return {"names": [rng.choice(DIRNAMES), rng.choice(DIRNAMES)], "seed": rng.randint(0, 10 ** 9)}
+
+
 def gen_random(rng):
     sps = type_variants(rng) if rng.random() < 0.25 else [rand_sp(rng) for _ in range(rng.randint(1, 3))]
     return {"kind": "random", "sps": [typed(s) for s in sps], "pseed": rng.randint(0, 10 ** 9),
-            "len": rng.randint(4, 12), "plant": rng.random() < 0.6, "damage": rng.random() < 0.25}
+            "len": rng.randint(4, 12), "plant": rng.random() < 0.6, "damage": rng.random() < 0.25, "prov": provenance(rng)}
 
 
 def gen_sweep(rng):
     return {"kind": "sweep", "sps": [typed(rand_sp(rng)) for _ in range(rng.randint(1, 2))],
-            "pseed": rng.randint(0, 10 ** 9), "stride": 1}
+            "pseed": rng.randint(0, 10 ** 9), "stride": 1, "prov": provenance(rng)}
 
 
 ALPHA = ["open0", "open1", "open2", "init", "session", "id0", "id1", "id2", "ids"]
@@ -92,10 +102,11 @@ def gen_inputs(tier, rng):
             for word in itertools.product(ALPHA, repeat=n):
                 if not any(w.startswith("open") for w in word):
                     continue
-                descs.append({"kind": "word", "word": list(word),
+                descs.append({"kind": "word", "word": list(word), "prov": provenance(rng),
                               "sps": [typed({"a": 1}), typed({"a": 1.0}), typed({"a": {"b": [True, None]}, "é": "x"})]})
                 if n <= 3:
-                    descs.append({"kind": "word", "word": list(word), "sps": [typed({}), typed({"a": 0}), typed({"a": {}})]})
+                    descs.append({"kind": "word", "word": list(word), "prov": provenance(rng),
+                                  "sps": [typed({}), typed({"a": 0}), typed({"a": {}})]})
     return descs
 
 
@@ -113,8 +124,12 @@ def build_ops(desc, W, real_id):
                 yield ["OpenSp", nsess - 1, sps[int(w[-1])]]
             elif w == "init":
                 if W.handles:
+                    if rng.random() < 0.5:
+                        yield ["ChDir", rng.randrange(8)]
                     yield ["Init", len(W.handles) - 1, False]
             elif w == "session":
+                if rng.random() < 0.5:
+                    yield ["ChDir", rng.randrange(8)]
                 yield ["NewSession", "A"]
                 nsess += 1
             elif w == "ids":
@@ -122,6 +137,7 @@ def build_ops(desc, W, real_id):
             elif w.startswith("id"):
                 yield ["OpenId", nsess - 1, real_id(sps[int(w[-1])])]
         # closing observations in a fresh session
+        yield ["ChDir", rng.randrange(8)]
         yield ["NewSession", "A"]
         nsess += 1
         yield ["Ids", nsess - 1]
@@ -136,6 +152,8 @@ def build_ops(desc, W, real_id):
         ids = []
         for sp in sps:
             yield ["OpenSp", 0, sp]
+            if rng.random() < 0.5:
+                yield ["ChDir", rng.randrange(8)]
             yield ["Init", len(W.handles) - 1, False]
             ids.append(W.handles[-1].id)
         fake = planted_ids(rng, anchor=rng.choice(ids))
@@ -143,6 +161,8 @@ def build_ops(desc, W, real_id):
             fake += planted_ids(rng)
         for f in fake:
             yield ["PlantDir", ["A", "workspace", f]]
+        if rng.random() < 0.5:
+            yield ["ChDir", rng.randrange(8)]
         yield ["NewSession", "A"]
         target = rng.choice(ids + fake)
         for n in range(0, 33):
@@ -189,9 +209,13 @@ def build_ops(desc, W, real_id):
             yield ["MutateArg", h, rng.choice(KEYS), typed(rng.choice(ATOMS)), rng.random() < 0.5]
             yield rng.choice([["Cached", h], ["Sp", h]])
         elif r < 0.45 and by_sp:
+            if rng.random() < 0.4:      # the working directory changes between the (lazy) open_job and init()
+                yield ["ChDir", rng.randrange(8)]
             wsops.settle()
             yield ["Init", rng.choice(by_sp), False]
         elif r < 0.52:
+            if rng.random() < 0.5:
+                yield ["ChDir", rng.randrange(8)]
             yield ["NewSession", "A"]
             nsess += 1
         elif r < 0.72:
@@ -208,7 +232,9 @@ def build_ops(desc, W, real_id):
         else:
             h = rng.randrange(nh)
             yield rng.choice([["Sp", h], ["Cached", h]])
-    # closing observations: everything initialised must be found by a fresh session
+    # closing observations: everything initialised must be found by a fresh session, whatever the working directory is
+    if rng.random() < 0.7:
+        yield ["ChDir", rng.randrange(8)]
     yield ["NewSession", "A"]
     nsess += 1
     yield ["Ids", nsess - 1]
@@ -229,29 +255,47 @@ def run_case(desc):
     steps, log = [], []
     kinds = {desc["kind"]}
     inited, reopened, ambiguous = False, False, False
+    prov = desc.get("prov")
+    cwd0 = os.getcwd()
     with scratch_dir("c02") as d:
-        W = wsops.World(d)
-        gen = build_ops(desc, W, real_id)
-        for op in gen:
-            out = W.run(op)
-            if out is None:        # harness-only op
-                log.append([op, None])
-                kinds.add("mutate-arg")
-                continue
-            tree = W.run(["Tree"])
-            quiet = W.run(["Quiet"])[1]
-            steps.append("(mkStep2 %s %s %s %s)" % (wsops.coq_op(L, op), wsops.coq_oval(L, out),
-                                                     wsops.coq_oval(L, tree), coq_bool(quiet)))
-            log.append([op, out if out[0] != "tree" else "tree", quiet])
-            kinds.add(op[0])
-            if op[0] == "Init" and out == ["unit"]:
-                inited = True
-            if op[0] == "NewSession" and inited:
-                reopened = True
-            if out == ["exn", "ELookupError"]:
-                ambiguous = True
-            if out[0] == "exn":
-                kinds.add(out[1])
+        try:
+            if prov:
+                # everything lives three levels below the scratch directory: a relative project path (at most three '..')
+                # evaluated from ANY of the working directories stays inside the scratch directory
+                top = os.path.join(d, "_", "_", "_")
+                base = os.path.join(top, "P" + prov["names"][1])
+                pdir = os.path.join(base, prov["names"][0])
+                cwds = [base, os.path.join(top, "c0", "x"), os.path.join(top, "c1", "y", "z"), pdir,
+                        os.path.join(top, "c2 [g]*", "q")]
+                for c in cwds:
+                    os.makedirs(c, exist_ok=True)
+                os.chdir(cwds[prov["seed"] % len(cwds)])
+                W = wsops.World(base, names={"A": prov["names"][0]}, cwds=cwds, prov_seed=prov["seed"])
+            else:
+                W = wsops.World(d)
+            gen = build_ops(desc, W, real_id)
+            for op in gen:
+                out = W.run(op)
+                if out is None:        # harness-only op
+                    log.append([op, None])
+                    kinds.add("chdir" if op[0] == "ChDir" else "mutate-arg")
+                    continue
+                tree = W.run(["Tree"])
+                quiet = W.run(["Quiet"])[1]
+                steps.append("(mkStep2 %s %s %s %s)" % (wsops.coq_op(L, op), wsops.coq_oval(L, out),
+                                                         wsops.coq_oval(L, tree), coq_bool(quiet)))
+                log.append([op, out if out[0] != "tree" else "tree", quiet])
+                kinds.add(op[0])
+                if op[0] == "Init" and out == ["unit"]:
+                    inited = True
+                if op[0] == "NewSession" and inited:
+                    reopened = True
+                if out == ["exn", "ELookupError"]:
+                    ambiguous = True
+                if out[0] == "exn":
+                    kinds.add(out[1])
+        finally:
+            os.chdir(cwd0)      # before the scratch directory is removed
     body = "(mkCase2 %s %s)" % (L.ftab(), coq_list(steps, "step_C02"))
     return Case(L.wrap(body), desc, obs=log, nontrivial=(reopened or ambiguous),
                 key=json.dumps([l[0] for l in log], sort_keys=True), kinds=sorted(kinds))
